@@ -17,6 +17,7 @@ fn main() {
     match args[1].as_str() {
         "bitbuffer" => vharness::bitops::record(&kv, &mut out),
         "prim" => vharness::prim::record(&kv, &mut out),
+        "der" => vharness::der::record(&kv, &mut out),
         other => {
             eprintln!("unknown domain {}", other);
             std::process::exit(2);
